@@ -1230,6 +1230,9 @@ func (t *fnTrans) selectInstr(in *ssa.Select) {
 		t.siteBefore(site, in, nil)
 	}
 	t.lastSel = idx
+	if st := t.sites[in]; st != "" {
+		t.selIdx[st] = idx
+	}
 	recvOk := t.c.declare(t.c.fresh(in.Name()+".ok"), "Bool")
 	out := []string{idx, recvOk}
 	for k, st := range in.States {
